@@ -189,6 +189,24 @@ def deskTerm (U : UrlOps) (fresh : Str → Str) : STerm → STerm
 def skolemizeAt (U : UrlOps) (auth base : Str) (g : SGraph) : SGraph :=
   g.map (fun t => (skTermAt U auth base t.1, t.2.1, skTermAt U auth base t.2.2))
 
+/-- partial skolemisation: `g.skolemize(bnode=b)` for every `b` of `sel`, one call after the other
+    (`do_skolemize`: only subject / object terms EQUAL to the chosen blank node are replaced) -/
+def skTermSel (U : UrlOps) (auth base : Str) (sel : List Str) : STerm → STerm
+  | .bnode l => if l ∈ sel then .iri (skolemizeLabelAt U auth base l) else .bnode l
+  | t => t
+
+def skolemizeSel (U : UrlOps) (auth base : Str) (sel : List Str) (g : SGraph) : SGraph :=
+  g.map (fun t => (skTermSel U auth base sel t.1, t.2.1, skTermSel U auth base sel t.2.2))
+
+/-- `Graph.de_skolemize(uriref=u)` for every `u` of `iris`, one call after the other (`do_de_skolemize`: only
+    subject / object IRIs whose text equals the given rdflib skolem IRI are replaced; everything else is copied) -/
+def deskTermOnly (U : UrlOps) (fresh : Str → Str) (iris : List Str) : STerm → STerm
+  | .iri u => if u ∈ iris then deskTerm U fresh (.iri u) else .iri u
+  | t => t
+
+def deSkolemizeOnly (U : UrlOps) (fresh : Str → Str) (iris : List Str) (g : SGraph) : SGraph :=
+  g.map (fun t => (deskTermOnly U fresh iris t.1, t.2.1, deskTermOnly U fresh iris t.2.2))
+
 /-- `Graph.skolemize()` -/
 def skolemize (U : UrlOps) (g : SGraph) : SGraph :=
   g.map (fun t => (skTerm U t.1, t.2.1, skTerm U t.2.2))
